@@ -341,6 +341,10 @@ class Inliner:
                         continue
                     return q, self.helpers[q], None
             return None
+        if isinstance(f, ast.Attribute) and isinstance(f.value, ast.Name) and f.value.id in getattr(self, "_cur_records", {}):
+            q = f"{self._cur_records[f.value.id]}.{f.attr}"
+            if q in self.helpers:
+                return q, self.helpers[q], f.value
         if isinstance(f, ast.Attribute) and isinstance(f.value, ast.Name) and f.value.id in ("self", "cls") and scope:
             # method of the enclosing class
             for k in range(len(scope), 0, -1):
@@ -561,6 +565,9 @@ class Inliner:
                         val = v if v is not None else ast.Constant(value=None)
                         if len(targets) == 1 and isinstance(targets[0], ast.Name) and isinstance(val, ast.Name) and val.id == targets[0].id:
                             return []
+                        sp = _split_parallel(targets, val, at)
+                        if sp is not None:
+                            return sp
                         return [ast.copy_location(ast.Assign(targets=[copy.deepcopy(x) for x in targets], value=val, lineno=at.lineno), at)]
                 else:
                     def on_ret(v, at):
@@ -750,20 +757,38 @@ class Inliner:
             ast.fix_missing_locations(self.tree)
             return self.tree
 
-        def drive(node: ast.AST, scope: List[str]) -> None:
+        new_classes = {c.name for c in ast.walk(self.tree) if isinstance(c, ast.ClassDef) and self.reference is not None and c.name not in self.reference}
+
+        def local_records(fn: ast.AST) -> Dict[str, str]:
+            out: Dict[str, str] = {}
+            for a in _scope_nodes(fn):
+                if isinstance(a, ast.Assign) and len(a.targets) == 1 and isinstance(a.targets[0], ast.Name) and isinstance(a.value, ast.Call) \
+                        and isinstance(a.value.func, ast.Name) and a.value.func.id in new_classes:
+                    stores = [n for n in ast.walk(fn) if isinstance(n, ast.Name) and n.id == a.targets[0].id and isinstance(n.ctx, (ast.Store, ast.Del))]
+                    if len(stores) == 1:
+                        out[a.targets[0].id] = a.value.func.id
+            return out
+
+        def drive(node: ast.AST, scope: List[str], inherited: Optional[Dict[str, str]] = None) -> None:
             for ch in ast.iter_child_nodes(node):
                 if isinstance(ch, (ast.FunctionDef, ast.AsyncFunctionDef)):
                     sc = scope + [ch.name]
+                    recs = dict(inherited or {})
+                    recs.update(local_records(ch))
+                    for p_ in ch.args.posonlyargs + ch.args.args + ch.args.kwonlyargs:
+                        recs.pop(p_.arg, None)
+                    self._cur_records = recs
                     for _ in range(3):
                         before = len([l for l in self.log if "inlined" in l])
                         ch.body = self.rewrite_block(ch.body, ch, sc)
                         if len([l for l in self.log if "inlined" in l]) == before:
                             break
-                    drive(ch, sc)
+                    drive(ch, sc, recs)
+                    self._cur_records = dict(inherited or {})
                 elif isinstance(ch, ast.ClassDef):
-                    drive(ch, scope + [ch.name])
+                    drive(ch, scope + [ch.name], None)
                 else:
-                    drive(ch, scope)
+                    drive(ch, scope, inherited)
 
         drive(self.tree, [])
         self.fuse_accumulators()
@@ -977,8 +1002,10 @@ class Inliner:
         for ch in ast.walk(self.tree):
             if isinstance(ch, ast.ClassDef) and ch.name not in self.reference and "." not in ch.name:
                 body = _strip_doc(ch.body)
-                if body and all(isinstance(b, ast.AnnAssign) and isinstance(b.target, ast.Name) for b in body):
-                    records[ch.name] = [(b.target.id, b.value) for b in body]
+                flds = [b for b in body if isinstance(b, ast.AnnAssign) and isinstance(b.target, ast.Name)]
+                meths = [b for b in body if isinstance(b, ast.FunctionDef)]
+                if flds and len(flds) + len(meths) == len(body) and not any(m.name.startswith("__") or m.decorator_list for m in meths):
+                    records[ch.name] = [(b.target.id, b.value) for b in flds]
         if not records:
             return
         for fn in [n for n in ast.walk(self.tree) if isinstance(n, (ast.FunctionDef, ast.AsyncFunctionDef))]:
@@ -1028,6 +1055,29 @@ class Inliner:
 
 def _always_assigned(stmts: List[ast.stmt]) -> bool:
     return False
+
+
+def _split_parallel(targets: List[ast.AST], val: ast.AST, at: ast.AST) -> Optional[List[ast.stmt]]:
+    """`a, b = (x, y)` produced by splicing `return x, y` into `a, b = helper(...)`: identity pairs dropped, the rest as
+    single assignments in an order in which no right-hand side reads a name that was already overwritten"""
+    if not (len(targets) == 1 and isinstance(targets[0], ast.Tuple) and isinstance(val, ast.Tuple) and len(val.elts) == len(targets[0].elts)
+            and all(isinstance(t, ast.Name) for t in targets[0].elts)):
+        return None
+    pairs = [(t.id, v) for t, v in zip(targets[0].elts, val.elts) if not (isinstance(v, ast.Name) and v.id == t.id)]
+    order: List[Tuple[str, ast.AST]] = []
+    rest = list(pairs)
+    while rest:
+        pick = None
+        for cand in rest:
+            others = [o for o in rest if o is not cand]
+            if not any(isinstance(n, ast.Name) and n.id == cand[0] for o in others for n in ast.walk(o[1])):
+                pick = cand
+                break
+        if pick is None:
+            return None
+        order.append(pick)
+        rest.remove(pick)
+    return [ast.copy_location(ast.Assign(targets=[ast.Name(id=nm, ctx=ast.Store())], value=copy.deepcopy(v), lineno=at.lineno), at) for nm, v in order]
 
 
 def normalize(tree: ast.Module, modname: str) -> Tuple[ast.Module, List[str]]:
